@@ -571,4 +571,48 @@ def c04_j(ctx: Ctx):
     return [ctx.ok(R, f, f.node, "Project.clone passes no ignore filter to the copy function", construct=k)]
 
 
-RULES = [c04_a, c04_b, c04_c, c04_d, c04_e, c04_f, c04_g, c04_h, c04_i, c04_j]
+@rule("C04-k")
+def c04_k(ctx: Ctx):
+    """Job.move makes sure the destination workspace directory exists before it renames the job directory into it (signac tolerates a missing
+    workspace everywhere else; without the directory the rename fails with ENOENT, which move() reports as 'job not initialized')."""
+    R = "C04-k"
+    fi = ctx.fn(MOVE)
+    cfg = ctx.cfg(fi)
+    out = []
+    k = MOVE + "|destination-workspace-created"
+    renames = [c for c in body_nodes(fi) if isinstance(c, ast.Call) and common.rename_call(ctx, fi, c) is not None]
+    if not renames:
+        return [ctx.inc(R, fi, fi.node, "no rename in Job.move", construct=k)]
+    mk = set()
+    for n in cfg.stmt_nodes():
+        if n.kind != "stmt":
+            continue
+        for c in walk_no_nested(n.ast):
+            if not isinstance(c, ast.Call):
+                continue
+            e = common.ext_name(ctx, fi, c)
+            hit = e in ("os.makedirs", "os.mkdir")
+            if not hit:
+                for tq in common.targets_of(ctx, fi, c):
+                    g = ctx.prog.funcs.get(tq)
+                    if g is not None and not g.module.is_dep:
+                        effs, _ = ctx.effects.transitive([g])
+                        kinds = {x.kind for x in effs}
+                        if "mkdir" in kinds and not (kinds & {"rename", "delete", "open-write", "write", "docmut"}):
+                            hit = True
+            if hit and c.args and "workspace" in canon(common.inline_at(ctx, fi, c.args[0], c)):
+                mk.add(n.id)
+    for c in renames:
+        bad = None
+        for nid in ctx.node_ids(fi, c):
+            bad = bad or cfg.must_pass_before(nid, mk, kinds="n")
+        if mk and bad is None:
+            out.append(ctx.ok(R, fi, c, "the destination project's workspace directory is created (if missing) before the job directory is renamed into it", construct=k))
+        else:
+            out.append(ctx.viol(R, fi, c, "Job.move renames the job directory into the destination workspace without making sure that directory exists: a destination project whose (empty) "
+                                "workspace directory was removed after the handle was created makes the move fail with ENOENT, which the neighbouring handler reports as 'job is not "
+                                "initialized' - the initialised job is neither moved nor correctly diagnosed", witness=cfg.describe_path(bad) if bad else None, construct=k))
+    return out
+
+
+RULES = [c04_a, c04_b, c04_c, c04_d, c04_e, c04_f, c04_g, c04_h, c04_i, c04_j, c04_k]
